@@ -726,8 +726,8 @@ def main(tier):
             run.count("emitter-coverage:executed-lines", emitter_cov["executed_lines"])
             run.count("emitter-coverage:executable-lines", emitter_cov["executable_lines"])
             run.count("emitter-coverage:switch-arms-never-reached", sum(1 for v in emitter_cov["switch_arms"].values() if v == "NEVER"))
-            # kept beside the evidence file: a later quick run overwrites evidence/C10.json, not this
-            json.dump(dict(emitter_cov, tier=tier, seed=run.seed), open(os.path.join(VERIF, "evidence", "C10-emitter-coverage.json"), "w"), indent=1)
+            # kept under notes/ (evidence/ holds one schema-valid file per property): a later quick run overwrites evidence/C10.json, not this
+            json.dump(dict(emitter_cov, tier=tier, seed=run.seed), open(os.path.join(VERIF, "notes", "C10-emitter-coverage.json"), "w"), indent=1)
             print("C10: emitter coverage done at %.1fs: %d/%d lines of %s" % (time.time() - T0, emitter_cov["executed_lines"], emitter_cov["executable_lines"], emitter_cov["source"]), file=sys.stderr)
         except Exception as e:          # evidence only: never a verdict
             emitter_cov = {"error": str(e)[-800:]}
